@@ -10,7 +10,7 @@
       they remain the named hypothesis [LibcStrictSpec] of the C05 theorems.
     * [ex_tree]: nested object/array, a string with every escape class and bytes >= 0x80, numbers
       of all three formatting branches, NaN and -inf; [printable], rendered in both formats. *)
-From CJ Require Import Base Dbl Tree Grammar PrintDefs LibcNum LibcPrint PrintStrict PrintStrictWs.
+From CJ Require Import Base Dbl Tree Grammar PrintDefs LibcNum LibcPrint PrintStrict PrintStrictWs PrintStrictUtf8.
 Local Open Scope Z_scope.
 
 (** ------------------------------------------------------------------ "%d", proved *)
@@ -340,3 +340,15 @@ Qed.
 
 Example ex_tree_fields_ok : fields_ok ex_tree = true.
 Proof. vm_compute. reflexivity. Qed.
+
+(** a tree with non-ASCII strings that are valid UTF-8: the object with the single member named
+    e-acute (C3 A9) whose value is the array of the strings "euro sign" (E2 82 AC) and "U+10348"
+    (F0 90 8D 88) followed by a tab; hypotheses and conclusion of [render_utf8] on it *)
+Definition ex_tree_u : node :=
+  ex_obj [ ex_key [195; 169; 0] (ex_arr [ ex_str [226; 130; 172; 0]; ex_str [240; 144; 141; 136; 9; 0] ]) ].
+Example ex_tree_u_ok :
+  printable ex_tree_u = true /\ strings_utf8 ex_tree_u = true /\ strings_utf8 ex_tree = false /\
+  ref_render false 0 ex_tree_u =
+    Some [123; 34; 195; 169; 34; 58; 91; 34; 226; 130; 172; 34; 44; 34; 240; 144; 141; 136; 92; 116; 34; 93; 125] /\
+  option_map utf8_valid (ref_render true 0 ex_tree_u) = Some true.
+Proof. repeat split; vm_compute; reflexivity. Qed.
